@@ -28,6 +28,8 @@ package randdata
 //@   requires ty != nil && len(ty.Members) > 0
 //@   modifies *
 //@   ensures len(choix) == len(ty.Members) && len(ty.Members) > 0
+//@   -- the bound handed to rand.Intn in the emitted text is the number of entries
+//@   callarg fmt.Sprintf@2 5 len(choix)
 //@   loop ty.Members.1 index n
 //@   loop ty.Members.1 invariant len(choix) == n
 
